@@ -22,6 +22,10 @@ COV_BITS = ["source_hole_during_rebuild", "preload_phase_hole", "merge_hole", "m
             "merge_kept_live_entry_over_preload", "writes_between_critical_sections", "forked_destination",
             "unaligned_write_before_reload", "unaligned_write_after_reload", "auto_snapshot_differs"]
 KEY_RMW = "wo-rmw-stale"
+KEY_DIV = "diverged-hole-below-syncpoint"
+DIV_TEXT = ("a destination that has written on its own since the sync point (data the source never got) has punched blocks out of "
+            "automatic snapshots at or below the sync point -- they were shadowed by its head; the rebuild replaces the files that did "
+            "the shadowing and never copies the punched ones: after promotion those blocks read zeros / older data")
 RMW_TEXT = ("a write that is not aligned to the 4 KiB block, acknowledged while the destination is still WO and not yet "
             "reloaded, is completed by diffDisk.readModifyWrite from the destination's OWN (stale or empty) chain: after "
             "promotion the rest of that block differs from the source")
@@ -138,6 +142,9 @@ def rebuild_case(rng, unaligned_pre=False, race=False, nb=None):
     """unaligned_pre: unaligned foreground writes may arrive before the Reload (the shape of wo-rmw-stale)"""
     g = G(rng, nb=nb)
     pre = g.prehistory(rng.randint(3, 9))
+    nopunch = rng.random() < 0.2
+    if nopunch:
+        pre = [o for o in pre if o["k"] != "reload"]          # Server.Reload switches reclamation on
     fork = -1
     dpre = []
     if rng.random() < 0.6:
@@ -145,7 +152,7 @@ def rebuild_case(rng, unaligned_pre=False, race=False, nb=None):
         last_del = max([i for i, o in enumerate(pre) if o["k"] == "del"] + [-1])
         fork = rng.randint(last_del + 1, len(pre))
         dpre = [g.write(0.3) for _ in range(rng.randint(0, 3))]
-    case = dict(mode="rebuild", K=g.K, nb=g.nb, pre=pre, fork=fork, dpre=dpre, ev=[], snap=0)
+    case = dict(mode="rebuild", K=g.K, nb=g.nb, pre=pre, fork=fork, dpre=dpre, ev=[], snap=0, nopunch=nopunch)
     need = needed_copies(case)
     ev = []
     p_un_pre = 0.5 if unaligned_pre else 0.0
@@ -175,13 +182,16 @@ def rebuild_case(rng, unaligned_pre=False, race=False, nb=None):
 def clone_case(rng):
     g = G(rng)
     pre = g.prehistory(rng.randint(3, 8), dels=False)
+    nopunch = rng.random() < 0.4
+    if nopunch:
+        pre = [o for o in pre if o["k"] != "reload"]
     pre.append(g.awrite())
     o = g.snap(user=True)
     pre.append(o)
     users = [x["name"] for x in pre if x["k"] == "snap" and x["user"]]
     for _ in range(rng.randint(0, 4)):
         pre.append(g.snap() if rng.random() < 0.3 and g.name < 6 else g.write(0.3))
-    case = dict(mode="clone", K=g.K, nb=g.nb, pre=pre, fork=-1, dpre=[], ev=[], snap=rng.choice(users))
+    case = dict(mode="clone", K=g.K, nb=g.nb, pre=pre, fork=-1, dpre=[], ev=[], snap=rng.choice(users), nopunch=nopunch)
     ev = []
     for i in needed_copies(case):
         for _ in range(rng.choice([0, 0, 1, 2])):
@@ -210,8 +220,87 @@ def enum_cases():
     return out
 
 
+def clone_enum_cases():
+    """two automatic snapshots below S share a block (the clone's own preload reclaims it when the source never did),
+    with and without the source's reclamation, the source writing during the copy"""
+    K, out = 8, []
+    pre = [W(0, K, 1), SNAP(1, False), W(0, K, 2), SNAP(2, False), W(K, K, 3), SNAP(3, True), W(0, K, 4)]
+    for nopunch in (True, False):
+        for sw_at in (0, 2, 3):
+            ev = [COPY(1), COPY(2), COPY(3)]
+            ev.insert(sw_at, SW(3, 2 * K, 9))
+            out.append(dict(mode="clone", K=K, nb=4, pre=pre, fork=-1, dpre=[], snap=3, nopunch=nopunch,
+                            ev=ev + [dict(CLONEINFO), dict(REL), ULM()]))
+    return out
+
+
+# minimized histories of earlier detections; they run first
+CORPUS_C07 = [
+    # seeded C07-lunmap-hole-wrong-file: the merge sent the hole of a finished run to the file of the NEXT run; block 1 is
+    # owned by the (automatic) add-time snapshot, block 2 by user snapshot 1, which also holds an older block 1
+    dict(mode="rebuild", K=8, nb=6, pre=[W(0, 32, 1), SNAP(1, True), W(8, 8, 2)], fork=-1, dpre=[], snap=0, nopunch=False,
+         ev=[COPY(1), COPY(2), dict(REL), ULM([BW(8, 16, 9)])]),
+]
+
+
+def merge_enum_cases():
+    """directed layouts for the merge loop of UpdateLUNMap: the writes land between its two critical sections and
+    supersede, in ascending offset order, blocks whose preloaded owners differ -- an automatic snapshot above the
+    newest user-created snapshot next to the user-created snapshot itself (which also holds an older copy of the
+    neighbour), two automatic snapshots in a row, a run that ends at a block that is not superseded, a run at the
+    end of the volume.  Every hole the merge sends must go to the file of the run it closes."""
+    K, out = 8, []
+    U4 = [W(0, 4 * K, 1), SNAP(1, True)]
+    layouts = [
+        # (prehistory, writes inside the window)
+        (U4 + [W(K, K, 2), SNAP(2, False)], [BW(K, 2 * K, 9)]),                       # auto-owned k, then user-owned k+1: one write
+        (U4 + [W(K, K, 2), SNAP(2, False)], [BW(K, K, 9), BW(2 * K, K, 10)]),         # the same as two writes
+        (U4 + [W(K, K, 2), SNAP(2, False)], [BW(K, K, 9)]),                           # the run ends at a block that is not superseded
+        ([W(0, 6 * K, 1), SNAP(1, True), W(5 * K, K, 2), SNAP(2, False)], [BW(4 * K, 2 * K, 9)]),   # user-owned, then auto-owned up to the end
+        (U4 + [W(K, K, 2), SNAP(2, False), W(2 * K, K, 3), SNAP(3, False)], [BW(K, 3 * K, 9)]),     # auto, other auto, user
+        (U4 + [W(2 * K, K, 2), SNAP(2, False)], [BW(K, 2 * K, 9)]),                   # user-owned k, then auto-owned k+1
+        (U4 + [W(K, 2 * K, 2), SNAP(2, False), W(K, K, 3), SNAP(3, True), W(2 * K, K, 4), SNAP(4, False)],
+         [BW(K, 3 * K, 9)]),                                                          # newer user snapshot, auto above it, old user below
+    ]
+    for pre, mid in layouts:
+        for fork in (-1, len(pre)):
+            case = dict(mode="rebuild", K=K, nb=6, pre=pre, fork=fork, dpre=[], snap=0, nopunch=False, ev=[])
+            case["ev"] = [COPY(i) for i in needed_copies(case)] + [dict(REL), ULM(mid)]
+            out.append(case)
+    return out
+
+
 RMW_CASE = dict(mode="rebuild", K=8, nb=8, pre=[W(0, 32, 1)], fork=-1, dpre=[], snap=0,
                 ev=[BW(17, 2, 3), COPY(1), dict(REL), ULM()])
+
+
+DIV_CASE = dict(mode="rebuild", K=8, nb=4, pre=[W(8, 8, 2), SNAP(2, False)], fork=2, dpre=[W(8, 8, 6)], snap=0,
+                ev=[COPY(2), dict(REL), ULM()])
+
+
+def is_div_shape(case):
+    """the destination wrote on its own after the point at which it was in sync with the source"""
+    return case["mode"] == "rebuild" and case["fork"] >= 0 and any(o["k"] == "w" for o in case["dpre"])
+
+
+def neutral_div(case):
+    c = copy.deepcopy(case)
+    c["dpre"] = [o for o in c["dpre"] if o["k"] != "w"]
+    return c
+
+
+def neutral_rmw(case):
+    """the same history with every foreground write that arrives before the Reload widened to whole blocks"""
+    c = copy.deepcopy(case)
+    K = c["K"]
+    for e in c["ev"]:
+        if e["k"] == "reload":
+            break
+        if e["k"] == "bw" and not aligned(K, e):
+            lo = e["off"] // K * K
+            hi = -(-(e["off"] + e["len"]) // K) * K
+            e["off"], e["len"] = lo, hi - lo
+    return c
 
 
 def is_rmw_shape(case):
@@ -269,8 +358,8 @@ EMPTY_SIDE = dict(live=0, fresh=0, chain=[], attr=[], snaps=[], ext=[], nblk=0, 
 def case_term(c, out):
     src = out.get("src") or EMPTY_SIDE
     dst = out.get("dst") or EMPTY_SIDE
-    return "mkrcase %s %s %s\n [%s]\n %s [%s] %d%%N\n [%s]\n [%s]\n %s\n %s %d%%N %d%%N" % (
-        nat(c["K"]), nat(c["nb"]), b(c["mode"] == "clone"),
+    return "mkrcase %s %s %s %s\n [%s]\n %s [%s] %d%%N\n [%s]\n [%s]\n %s\n %s %d%%N %d%%N" % (
+        nat(c["K"]), nat(c["nb"]), b(c["mode"] == "clone"), b(c.get("nopunch", False)),
         "; ".join(op_term(o) for o in c["pre"]),
         "None" if c["fork"] < 0 else "(Some %d)" % c["fork"],
         "; ".join(op_term(o) for o in c["dpre"]), c.get("snap", 0),
@@ -394,15 +483,19 @@ def shrink(ctx, binpath, case, still_bad, tag="rshr", rounds=16):
 def gen_cases(rng, pid, quick):
     cases = []
     if pid == "C07":
+        cases += copy.deepcopy(CORPUS_C07)
+        cases += merge_enum_cases()
         cases += enum_cases()
         for _ in range(110 if quick else 3000):
             cases.append(rebuild_case(rng))
         for _ in range(24 if quick else 600):
             cases.append(rebuild_case(rng, race=True, nb=rng.choice([8, 16, 32])))
         cases.append(copy.deepcopy(RMW_CASE))
+        cases.append(copy.deepcopy(DIV_CASE))
         for _ in range(20 if quick else 500):
             cases.append(rebuild_case(rng, unaligned_pre=True))
     else:
+        cases += clone_enum_cases()
         for _ in range(90 if quick else 2500):
             cases.append(clone_case(rng))
     return cases
@@ -425,6 +518,15 @@ def run_data_half(ctx, pid, quick):
     rng = ctx.rng
     cases = gen_cases(rng, pid, quick)
     bad, cov, outs, skip = run_cases(ctx, binpath, cases, tag="rb" + pid)
+    if skip:
+        # the lock hand-over inside UpdateLUNMap did not take (rare): run those histories once more
+        again = sorted(skip)
+        bad2, cov2, outs2, skip2 = run_cases(ctx, binpath, [cases[i] for i in again], tag="rr" + pid)
+        for j, i in enumerate(again):
+            cov[i] = cov2[j]
+            outs[i] = outs2[j]
+        bad += [dict(y, case=again[y["case"]]) for y in bad2]
+        skip = {again[j] for j in skip2}
     known = dict(vlib.load_known(pid))
     violations = []
     n_known = 0
@@ -436,22 +538,40 @@ def run_data_half(ctx, pid, quick):
     concrete = [x for x in bad if not x["oracle"]]
     # with a free-running writer the extents of automatic snapshots depend on the interleaving: not a difference
     drift = [x for x in bad if x["oracle"] and x["diff"] != 0 and not (racy(cases[x["case"]]) and x["diff"] in (5, 6, 15, 16))]
-    known_done = False
+    KNOWN = [(KEY_RMW, is_rmw_shape, RMW_TEXT, neutral_rmw, RMW_CASE), (KEY_DIV, is_div_shape, DIV_TEXT, neutral_div, DIV_CASE)] if pid == "C07" else []
+    # a failure is attributed to a recorded finding when (a) the implementation behaved exactly like the model of
+    # the current tree, (b) the history has the finding's stated shape, and (c) the same history with that one
+    # ingredient neutralised (writes aligned / no divergent writes) satisfies the oracle on the implementation
+    attributed = {}
+    cand = []
+    for x in concrete:
+        case = cases[x["case"]]
+        if x["diff"] != 0:
+            continue
+        ks = [k for k in KNOWN if k[0] in known and k[1](case)]
+        if ks:
+            c2 = case
+            for k in ks:
+                c2 = k[3](c2)
+            cand.append((x["case"], ks, c2))
+    if cand:
+        bad2, _, _, skip2 = run_cases(ctx, binpath, [c for _, _, c in cand], tag="rn" + pid)
+        failing2 = {y["case"] for y in bad2 if not y["oracle"]} | set(skip2)
+        for j, (ci, ks, _) in enumerate(cand):
+            if j not in failing2:
+                attributed[ci] = ks
+    printed = set()
     reported = 0
     for x in concrete:
         case = cases[x["case"]]
-        if pid == "C07" and KEY_RMW in known and is_rmw_shape(case) and x["diff"] == 0:
-            if not known_done:
-                small = shrink(ctx, binpath, case, lambda y: not y["oracle"] and y["diff"] == 0, tag="rk")
-                if is_rmw_shape(small):
-                    known_done = True
-                    n_known += 1
-                    vlib.known_finding(ctx, KEY_RMW, RMW_TEXT + "; minimal history: " + json.dumps(dict(pre=small["pre"], fork=small["fork"], ev=small["ev"])))
-                    ctx.notes.append(dict(known_finding=KEY_RMW, minimal_case=small))
-                    continue
-            else:
-                n_known += 1
-                continue
+        if x["case"] in attributed:
+            n_known += 1
+            for k in attributed[x["case"]]:
+                if k[0] not in printed and json.dumps(case, sort_keys=True) == json.dumps(k[4], sort_keys=True):
+                    printed.add(k[0])
+                    vlib.known_finding(ctx, k[0], k[2] + "; minimal history: " + json.dumps(dict(pre=case["pre"], fork=case["fork"], dpre=case["dpre"], ev=case["ev"])))
+                    ctx.notes.append(dict(known_finding=k[0], minimal_case=case))
+            continue
         if reported < 2:
             small = shrink(ctx, binpath, case, lambda y: not y["oracle"], tag="rs%d" % reported)
             bb, _, oo, _ = run_cases(ctx, binpath, [small], tag="rf%d" % reported)
@@ -462,6 +582,12 @@ def run_data_half(ctx, pid, quick):
             obj.update(describe(small))
             violations.append(dict(replay=obj, nofail=False, suffix="-data" + ("" if reported == 0 else "-%d" % reported)))
             reported += 1
+    for ci, ks in attributed.items():
+        for k in ks:
+            if k[0] not in printed:
+                printed.add(k[0])
+                c = cases[ci]
+                vlib.known_finding(ctx, k[0], k[2] + "; history: " + json.dumps(dict(pre=c["pre"], fork=c["fork"], dpre=c["dpre"], ev=c["ev"])))
     if drift and not violations:
         x = drift[0]
         small = shrink(ctx, binpath, cases[x["case"]], lambda y: y["diff"] != 0, tag="rd")
